@@ -1,7 +1,7 @@
 SPECIFICATION Spec
 CONSTANTS
   Chunks = 3
-  RequireEnd = TRUE
+  RequireEnd = FALSE
   PreDest = "old"
 CONSTRAINT StateBound
 INVARIANTS DestNeverPartial PublishedOnlyWhenComplete FailureLeavesNothing KillLeavesDest
